@@ -252,6 +252,13 @@ public:
                     t1 /= maxval;
                     Scalar p0 = p / maxval;
                     z = maxval * sqrt(abs(p0 * p0 + t0 * t1));
+                    // The Schur step left this 2x2 block because, in its arithmetic, the
+                    // eigenvalues are complex. For a (numerically) double eigenvalue the
+                    // discriminant can cancel to exactly zero here; the pair must stay complex,
+                    // otherwise the eigenvector code treats the block as triangular. An
+                    // imaginary part at rounding level is within the backward error
+                    if (z == Scalar(0))
+                        z = Eigen::NumTraits<Scalar>::epsilon() * maxval;
                 }
                 m_eivalues.coeffRef(i) = Complex(m_matT.coeff(i + 1, i + 1) + p, z);
                 m_eivalues.coeffRef(i + 1) = Complex(m_matT.coeff(i + 1, i + 1) + p, -z);
